@@ -915,6 +915,15 @@ func (s *Sim) StaleCompletedExp() bool {
 	return s.cacheExp.IsCompleted() && !e.IsCompleted()
 }
 
+// StaleRunningExp: the stored experiment carries a verdict which the experiment cache has not seen yet.
+func (s *Sim) StaleRunningExp() bool {
+	e := &experimentsv1beta1.Experiment{}
+	if s.cacheExp == nil || s.store.Get(ctx, types.NamespacedName{Name: ExpName, Namespace: NS}, e) != nil {
+		return false
+	}
+	return !s.cacheExp.IsCompleted() && e.IsCompleted()
+}
+
 // CachedSuggestion returns (spec.requests, status.suggestionCount) of the cached suggestion, or nil.
 func (s *Sim) CachedSuggestion() []int64 {
 	if s.cacheSug == nil {
